@@ -138,6 +138,34 @@ def run_case(args):
     return bad
 
 
+def include_cases():
+    """an <%include> from a template that itself inherits: the included template is a chain of its own - its
+    named blocks render at their own position even when the includer's ancestors declare a block of that name"""
+    from mako.lookup import TemplateLookup
+    bad = []
+    for inc_chain in (1, 2):
+        for colliding in (True, False):
+            lk = TemplateLookup()
+            bname = "b1" if colliding else "other"
+            lk.put_string("base.html", 'BASE<%block name="b1">[base.b1]</%block>{${next.body()}}')
+            lk.put_string("page.html", '<%inherit file="base.html"/>PAGE<%include file="inc.html"/>END')
+            if inc_chain == 1:
+                lk.put_string("inc.html", 'INC<%%block name="%s">[inc.%s]</%%block>' % (bname, bname))
+                exp_inc = "INC[inc.%s]" % bname
+            else:
+                lk.put_string("incbase.html", 'IB<%%block name="%s">[incbase.%s]</%%block>(${next.body()})' % (bname, bname))
+                lk.put_string("inc.html", '<%%inherit file="incbase.html"/>INC<%%block name="%s">[inc.%s]</%%block>' % (bname, bname))
+                exp_inc = "IB[inc.%s](INC)" % bname
+            exp = "BASE[base.b1]{PAGE%sEND}" % exp_inc
+            try:
+                got = lk.get_template("page.html").render_unicode()
+            except Exception as e:
+                got = "%s: %s" % (type(e).__name__, str(e)[:100])
+            if got != exp:
+                bad.append({"included_chain_length": inc_chain, "block_name_collides": colliding, "expected": exp, "got": got})
+    return 4, bad
+
+
 def compile_rejections():
     """block names unique within a template; named blocks inside defs or calls rejected at compile time"""
     from mako.template import Template
